@@ -234,6 +234,14 @@ func (p *Ptr) store(v Val) {
 type frame struct {
 	fn   *ssa.Function
 	vals map[ssa.Value]Val
+	// early returns taken under a data-dependent condition: when the frame finally returns R, the result is
+	// Mux(cond_k, early_k, …) applied from the last to the first
+	early []earlyRet
+}
+
+type earlyRet struct {
+	cond Poly
+	res  []Val
 }
 
 // Call interprets fn on args. err != nil means the domain could not decide (⊤).
@@ -270,6 +278,31 @@ func (in *Interp) call(fn *ssa.Function, args []Val) *Exit {
 	for {
 		next, ex := in.runBlock(fr, blk, pred, 0)
 		if ex != nil {
+			if len(fr.early) > 0 {
+				if ex.Panic {
+					in.fail("explicit panic after a data-dependent early return in %s", fn)
+				}
+				for k := len(fr.early) - 1; k >= 0; k-- {
+					er := fr.early[k]
+					if len(er.res) != len(ex.Results) {
+						in.fail("early return arity mismatch in %s", fn)
+					}
+					var res []Val
+					for i := range er.res {
+						a, ok1 := er.res[i].(*BV)
+						b, ok2 := ex.Results[i].(*BV)
+						if !ok1 || !ok2 || a.W() != b.W() {
+							in.fail("data-dependent early return of non-scalar values in %s", fn)
+						}
+						m := &BV{Bits: make([]Poly, a.W()), Signed: a.Signed}
+						for j := range m.Bits {
+							m.Bits[j] = Mux(er.cond, a.Bits[j], b.Bits[j])
+						}
+						res = append(res, m)
+					}
+					ex = &Exit{Results: res, Instr: ex.Instr}
+				}
+			}
 			return ex
 		}
 		pred, blk = blk, next
@@ -574,6 +607,29 @@ func (in *Interp) symbolicBranch(fr *frame, blk *ssa.BasicBlock, ifi *ssa.If, p 
 			res = append(res, m)
 		}
 		return nil, &Exit{Results: res, Instr: ra}
+	}
+	// early return: one side is an effect-free block ending in a return of scalars, the other side goes on. The
+	// returned values are kept and muxed into whatever the function finally returns.
+	for side := 0; side < 2; side++ {
+		ra := pureReturnBlock(blk.Succs[side])
+		if ra == nil || pureReturnBlock(blk.Succs[1-side]) != nil {
+			continue
+		}
+		for _, ins := range blk.Succs[side].Instrs {
+			if v, ok := ins.(ssa.Value); ok {
+				fr.vals[v] = in.eval(fr, v)
+			}
+		}
+		var res []Val
+		for _, rv := range ra.Results {
+			res = append(res, in.get(fr, rv))
+		}
+		cond := p
+		if side == 1 {
+			cond = Not(p)
+		}
+		fr.early = append(fr.early, earlyRet{cond: cond, res: res})
+		return blk.Succs[1-side], nil
 	}
 	// gate: both sides rejoin at a common block through straight-line, effect-free code
 	chain := func(s *ssa.BasicBlock) ([]*ssa.BasicBlock, *ssa.BasicBlock) {
